@@ -16,7 +16,10 @@ MODROOT = "vmod"
 
 TYPE_NAMES = ["Base", "Son", "Conf", "User", "Zed", "Node", "Item", "Acct", "Kid", "Leaf", "Root", "Wire",
               "Alpha", "Beta", "Gamma", "Delta", "Query", "Plan", "Vat", "Yard"]
-FIELD_NAMES = ["id", "name", "age", "k", "z", "b", "zed", "count", "flag", "tags", "w", "q", "memo", "rate",
+# no field name may give an accessor named like a type of TYPE_NAMES: a struct that embeds Zed and reaches a field `zed`
+# has the embedded FIELD Zed shadowing the promoted method Zed(), so it does not satisfy the accessor interface shoot
+# generated for it (name-collision class of the constructor findings, K_ctor_method_name_collision; found by seed 10)
+FIELD_NAMES = ["id", "name", "age", "k", "z", "b", "zeal", "count", "flag", "tags", "w", "q", "memo", "rate",
                "total", "level", "code", "slot", "x1", "y2", "note", "unit", "side", "rank"]
 BASIC_TYPES = ["int", "string", "bool", "int64", "float64", "[]string", "map[string]int", "uint8"]
 
@@ -419,6 +422,46 @@ def _fields(rng, names, allow_dirs=True, exported_rate=0.2, time_ok=False):
     return res
 
 
+def _reached(structs, st):
+    """(name, depth) of everything the field walk of fields.go reaches from st (embedded type names included)"""
+    by = {x.name: x for x in structs}
+    out = []
+
+    def walk(s, depth, top):
+        for it in s.items:
+            if isinstance(it, Embed):
+                out.append((it.tname, depth))
+                if it.tname in by:
+                    walk(by[it.tname], depth + 1, False)
+            else:
+                out.append((it.name, depth))
+    walk(st, 0, True)
+    return out
+
+
+def _ambiguous(structs, st):
+    seen = set()
+    for nd in _reached(structs, st):
+        key = (nd[0].lower(), nd[1])          # Q and q give one option function / accessor name
+        if key in seen:
+            return True
+        seen.add(key)
+    return False
+
+
+def _drop_ambiguous(structs):
+    changed = True
+    while changed:
+        changed = False
+        for st in structs:
+            while _ambiguous(structs, st):
+                embs = [it for it in st.items if isinstance(it, Embed)]
+                if not embs:
+                    break
+                st.items.remove(embs[-1])
+                changed = True
+
+
 def gen_new(rng, name="p"):
     ntypes = rng.randint(2, 6)
     tnames = rng.sample(TYPE_NAMES, ntypes)
@@ -466,8 +509,12 @@ def gen_new(rng, name="p"):
             inner = [f for f in next(s for s in structs if s.name == embs[0].tname).items if isinstance(f, SField)]
             if inner and not any(isinstance(x, SField) and x.name == inner[0].name for x in st.items):
                 st.items.append(SField(inner[0].name, "string"))
-    # drop same-depth duplicates introduced through two embedded structs sharing a descendant: keep it simple and
-    # remove a second embed that reaches an already reached struct
+    # no name may be reached twice at the same depth (two embedded structs sharing a descendant, an outer field named
+    # like a field another embedded struct promotes to the same depth): such selectors are ambiguous in Go and
+    # `shoot new` prints the option function / parameter twice (open findings of the constructor owner:
+    # K_ctor_ambiguous_promoted, K_ctor_camel_collision).  The random stream stays out of that class (one corpus
+    # case of c08.py keeps the shape under comparison); strict shadowing (different depths) stays in.
+    _drop_ambiguous(structs)
     # shoot: new marks
     if use_new_dir:
         for st in structs:
@@ -711,6 +758,24 @@ def gen_map(rng, name="src"):
             shootnew_dest.append(tn)
         if snew:
             shootnew_src.append(tn)
+    # a field of a nested struct type on both sides (makeSubMap: dest.F = src.F.ToDest()): the holder and the nested type
+    # are declared in DIFFERENT source files, so that `map -file=<holder's file>` does not list the nested type while
+    # -type=* and explicit lists may: what is emitted for the holder must not depend on that
+    plain = [tn for tn in tnames if tn not in shootnew_dest and tn not in shootnew_src]
+    if len(plain) >= 2 and rng.random() < 0.5:
+        a, b = rng.sample(plain, 2)
+        where = {d.name: hf for hf in [srcf] + ([src2] if src2 else []) for d in hf.decls if isinstance(d, Struct)}
+        if where[a] is where[b]:
+            if src2 is None:
+                src2 = HFile("extra.go", [])
+            other = src2 if where[b] is srcf else srcf
+            stb = next(d for d in where[b].decls if isinstance(d, Struct) and d.name == b)
+            where[b].decls.remove(stb)
+            other.decls.append(stb)
+        sa = next(d for hf in [srcf, src2] if hf for d in hf.decls if isinstance(d, Struct) and d.name == a)
+        da = next(d for d in destf.decls if isinstance(d, Struct) and d.name == a)
+        sa.items.append(SField("Part" + b, b, ptr=rng.random() < 0.3))
+        da.items.append(SField("Part" + b, b, ptr=rng.random() < 0.3))
     files = [srcf] + ([src2] if src2 and src2.decls else [])
     flags = []
     r = rng.random()
